@@ -19,7 +19,7 @@ RULES = {
     "inside the event sequence, or a fault-free run of a streaming/file/error-path recipe",
     "filegrid": "enumerated product for FileResponse: (size, chunk) pairs x every Range shape (single, suffix, open, multi, unsatisfiable, malformed, empty) x GET/HEAD x "
     "If-Range absent/stale x zero-copy extension offered or not, each with every close/disconnect prefix as above",
-    "statuses": "exhaustive: every status code 100..599 through the empty, plain and redirect response on both interfaces",
+    "statuses": "exhaustive: every three-digit status code 100..999 (every 7th plus class edges in the quick tier) through the empty, plain and redirect response on both interfaces",
 }
 ASSUMPTIONS = [
     "constructor arguments that cannot be rendered at all (NaN in JSON, text the chosen charset cannot encode, header text above U+00FF) are caller errors and not generated",
@@ -96,6 +96,16 @@ def oracle(case) -> Result:
     # ---------------- WSGI ----------------
     base = dict(recipe)
     base.pop("raise_at", None)
+    if recipe.get("hostile_ctor"):
+        # an argument that cannot be sent (CR/LF/NUL in a download name): refusing it at construction is
+        # fine; if it is accepted, everything below applies to what gets emitted
+        try:
+            build(base, "wsgi")
+            build(base, "asgi")
+        except ValueError:
+            r.label("rejected-at-construction", f"kind={kind}")
+            r.nontrivial = True
+            return r
     run = wsgi_run(case, base)
     runs += 1
     if run == "hang":
@@ -225,6 +235,9 @@ def response_case(draw):
             rq["if_range"] = draw(st.sampled_from(['"stale-etag"', "Wed, 21 Oct 2015 07:28:00 GMT", "garbage", "", '"caf\xe9"', "\xff"]))
         if draw(st.integers(0, 3)) == 0:
             rq["zerocopy"] = True
+        if draw(st.integers(0, 7)) == 0:
+            recipe["download_name"] = draw(st.sampled_from(["a\r\nSet-Cookie: x=1", "a\nb.txt", "nul\x00.bin", "cr\r.txt", "t\tab.txt", "del\x7f.txt"]))
+            recipe["hostile_ctor"] = True
     return {"response": recipe, "request": rq}
 
 
@@ -243,11 +256,15 @@ def file_grid(quick):
                         if if_range is not None:
                             rq["if_range"] = if_range
                         yield {"response": {"kind": "file", "name": "f.txt", "size": size, "chunk": chunk}, "request": rq}
+    for dn in ("a\r\nSet-Cookie: x=1", "a\nb.txt", "nul\x00.bin", "cr\r.txt", "t\tab.txt", "del\x7f.txt", "ok.txt", "sp ace.txt", 'quo"te.txt', "semi;colon.txt", "é.txt"):
+        for rng in (None, "bytes=0-1", "bytes=9-"):
+            yield {"response": {"kind": "file", "name": "f.txt", "size": 5, "chunk": 3, "download_name": dn, "hostile_ctor": True}, "request": {"method": "GET", "range": rng}}
 
 
 def run(rec, only=None):
     quick = rec.tier == "quick"
-    core.drive_cases(rec, "statuses", ({"status": s} for s in range(100, 600, 7 if quick else 1)), oracle_status)
+    codes = sorted(set(range(100, 1000, 7 if quick else 1)) | {100, 199, 299, 418, 499, 599, 600, 601, 699, 700, 777, 899, 900, 999})
+    core.drive_cases(rec, "statuses", ({"status": s} for s in codes), oracle_status)
     rec.exhaustive["statuses"] = not quick
     core.drive_cases(rec, "filegrid", file_grid(quick), oracle)
     rec.exhaustive["filegrid"] = True
